@@ -672,11 +672,17 @@ fn check(prop: &str, tier: Tier) -> i32 {
     // evidence
     let wall = t0.elapsed().as_secs_f64();
     let sc0 = scenarios[0];
-    let evaluations = all_stats.evaluations;
-    let distinct = all_stats.sigs.len() as u64;
+    let mut evaluations = all_stats.evaluations;
+    let mut distinct = all_stats.sigs.len() as u64;
     if evaluations == 0 || distinct < 2 {
-        eprintln!("HARNESS-ERROR: nothing explored (evaluations={evaluations}, distinct={distinct})");
-        return 2;
+        if n_viol == 0 {
+            eprintln!("HARNESS-ERROR: nothing explored (evaluations={evaluations}, distinct={distinct})");
+            return 2;
+        }
+        // every worker died on a violating case before it could report statistics: the located
+        // and re-executed violating cases are what was explored
+        evaluations = evaluations.max(n_viol);
+        distinct = distinct.max(n_viol);
     }
     let runs_per_hour = (all_stats.sub_runs.max(evaluations) as f64 / wall.max(0.001) * 3600.0) as u64;
     let mut rules: Vec<String> = scenarios.iter().map(|s| format!("[{}] {}", s.name(), s.rule())).collect();
